@@ -918,6 +918,12 @@ func (e *Env) evalCall(n *ECall) (Val, error) {
 	}
 	if cs, ok := f.e.specs.csByKey[id.Name]; ok && cs.Func {
 		t, err := f.e.resolveType(cs.Pkg, &TypeExpr{Kind: "name", Name: id.Name})
+		if err != nil && len(args) > 0 && args[0].T != nil {
+			// a callspec keyed by a field of function type: the signature is that of the function value given
+			if _, isSig := args[0].T.Underlying().(*types.Signature); isSig {
+				t, err = args[0].T, nil
+			}
+		}
 		if err == nil {
 			if sig, ok := t.Underlying().(*types.Signature); ok {
 				var rt types.Type
